@@ -75,6 +75,8 @@ type Exec struct {
 	sharedObjs       map[int]bool
 	fatalIsViolation bool
 	sampleBudget     int
+	ForkSites        map[string]int
+	loopBounds       map[string]int
 	PathSamples      []interface{}
 	SampleModels     [][]NondetVal
 }
@@ -488,6 +490,10 @@ func (ex *Exec) run(st *State) {
 					fail("symbolic branch inside a synchronous call")
 				}
 				ex.Forks++
+				if ex.ForkSites != nil {
+					w, _ := ex.where(ins)
+					ex.ForkSites[w]++
+				}
 				st2 := st.clone()
 				ex.sol.Push()
 				ex.sol.Assert(c)
@@ -622,6 +628,15 @@ func (ex *Exec) jump(st *State, fr *Frame, to *ssa.BasicBlock) bool {
 		ex.Notes["unwind bound hit in "+w]++
 		ex.endPath(st, "unwind")
 		return false
+	}
+	if len(ex.loopBounds) > 0 && fr.visits[to.Index] > 1 {
+		for sfx, b := range ex.loopBounds {
+			if fr.visits[to.Index] > b+1 && strings.HasSuffix(fr.fn.String(), sfx) && isLoopHeader(to) {
+				ex.Notes[fmt.Sprintf("unwinding assumption: paths with more than %d iterations of a loop in %s are not explored", b, fr.fn.String())]++
+				ex.endPath(st, "loop-bound")
+				return false
+			}
+		}
 	}
 	if ex.progress != nil {
 		if !ex.progressCheck(st, fr, to) {
